@@ -140,6 +140,72 @@ def rule_context_stack(ctx, fx, config):
     ctx.check(okpop, "CONTEXT", "C14:CONTEXT:pop-unconditional", "leaving an anchored wrapper always pops one context entry", "Guard::drop pops the context stack only under a condition (push and pop no longer pair one to one)", config, ctx.where(gd))
 
 
+def rule_anchor_ends_dash_line(ctx, fx, config):
+    """ANCHOR (collections): `&aN` written for a sequence ends its line (`- &a1` + line break).  The sequence serializer's
+    "stay mid-line so that the first element follows the dash" switch (`at_line_start = false` after the anchor was written)
+    is therefore reachable only when no anchor was pending — otherwise the first element is written at column 0 of the next
+    line and the rest one level deeper (`- &a1\n- 1\n  - 2`)."""
+    f = fx.fn("<&mut ser::YamlSerializer as serde::Serializer>::serialize_seq")
+    ctx.saw(f)
+    wa = [b for b, t in f.calls() if fx.callee(t).endswith("::write_anchor_for_complex_node")]
+    after = set()
+    for b in wa:
+        nxt = f.blocks[b]["term"].get("t")
+        if nxt is not None:
+            after |= f.reachable([nxt])
+    stays = [b for b, i, s_ in f.stmts() if b in after and s_["k"] == "assign" and s_["p"]["pr"] and render(f.sym_place(s_["p"])) == "self.at_line_start" and f.sym_rvalue(s_["rv"]) == ("const", False, "bool")]
+    no_anchor_edges = []
+    for sb, sym, tt, ff in bool_switches(f):
+        with f.deep():
+            d = f.sym_operand(f.blocks[sb]["term"]["o"])
+        neg = False
+        while d[0] == "un" and d[1] == "Not":
+            d, neg = d[2], not neg
+        if d[0] == "call" and last_seg(d[1]) in ("is_some", "is_none") and "pending_anchor_id" in render(d):
+            none_edge = (tt if last_seg(d[1]) == "is_none" else ff) if not neg else (ff if last_seg(d[1]) == "is_none" else tt)
+            some_edge = ff if none_edge == tt else tt
+            if sb in after:
+                no_anchor_edges.append((sb, some_edge))
+    # stated from the anchor-present edge (the other way round runs into the infeasible path `!inline_first` then `inline_first`):
+    # there is a test of the pending anchor after the anchor was written, and from its "anchor present" edge the mid-line switch
+    # is unreachable while the staged inline hint is withdrawn
+    clears = [b for b, i, s_ in f.stmts() if s_["k"] == "assign" and s_["p"]["pr"] and render(f.sym_place(s_["p"])) == "self.pending_inline_map" and f.sym_rvalue(s_["rv"]) == ("const", False, "bool")]
+    ok = bool(wa) and bool(stays) and bool(no_anchor_edges) and all(not (set(stays) & f.reachable([e])) and bool(set(clears) & f.reachable([e])) for sb, e in no_anchor_edges)
+    ctx.check(ok, "ANCHOR", "C14:ANCHOR:sequence-anchor-ends-the-dash-line", "after `&aN` was written for a sequence its first element is not kept on the dash's line (%d mid-line switch(es), all under `no anchor pending`)" % len(stays),
+              "serialize_seq keeps the first element inline after the dash although the sequence's anchor has just ended that line: a shared sequence used as a sequence element is written `- &a1\\n- 1\\n  - 2`, which does not read back", config, ctx.where(f, stays[0] if stays else None))
+
+
+def rule_dangling_weak_reads_back(ctx, fx, config):
+    """TABLE (writer / reader): the serializer writes a dangling weak edge as `null`.  Each of the four weak visitors therefore
+    has, on the edge where the node is not an alias (no anchor context), a path that answers with an empty `Weak::new()` — taken
+    when the node is null — instead of rejecting every non-alias node."""
+    n = 0
+    for f in sorted(fx.fns.values(), key=lambda g: g.npath):
+        if not (f.name == "visit_newtype_struct" and "anchors::" in f.npath and re.search(r"(WeakAnchor|Recursion) as serde::Deserialize", f.npath)):
+            continue
+        n += 1
+        ctx.saw(f)
+        none_edges = []
+        for b in sorted(f.live_blocks):
+            t = f.blocks[b]["term"]
+            if t["k"] != "switch":
+                continue
+            sym = f.sym_operand(t["o"])
+            if sym[0] == "discr" and sym[1][0] == "call" and "anchor_store::current_" in sym[1][1]:
+                arms = dict(zip(t["vals"], t["tgts"]))
+                none_t = arms.get(0, t["tgts"][-1])
+                some_t = arms.get(1, t["tgts"][-1])
+                if none_t != some_t:
+                    none_edges.append(none_t)
+        weaknew = [b for b, t in f.calls() if fx.callee(t) in ("std::rc::Weak::new", "std::sync::Weak::new")]
+        opt = [b for b, t in f.calls() if "Option" in fx.callee(t) and t["f"].get("name") == "deserialize"] or [b for b, t in f.calls() if fx.callee(t).endswith("Deserialize>::deserialize") and "Option" in str(t["f"])]
+        ok = bool(none_edges) and bool(weaknew) and all(set(weaknew) & f.reachable([e]) for e in none_edges)
+        nm = f.npath.split("anchors::")[1].split(" ")[0]
+        ctx.check(ok, "TABLE", "C14:TABLE:dangling-weak-reads-back:%s" % nm, "a %s that is not an alias can be read as a dangling weak (null)" % nm,
+                  "the %s visitor rejects every node that is not an alias: the `null` the serializer writes for a dangling weak does not read back, so a graph with a dropped target fails to deserialize" % nm, config, ctx.where(f))
+    ctx.floor("TABLE.weak-visitors", n, 4, config)
+
+
 def rule_anchor_consumed(ctx, fx, config):
     """ANCHOR: the serializer stages `&aN` for the *next node*.  Every path that writes a scalar consumes the staged anchor
     before it writes (write_scalar_prefix_if_anchor), otherwise the anchor sticks to whatever node is written next and
@@ -190,6 +256,8 @@ def run(ctx):
         rule_placeholder(ctx, fx, config)
         rule_anchor_consumed(ctx, fx, config)
         rule_context_stack(ctx, fx, config)
+        rule_dangling_weak_reads_back(ctx, fx, config)
+        rule_anchor_ends_dash_line(ctx, fx, config)
         # what a document registered is gone when its scope ends: no hidden strong owner, no reuse by the next document (shared rule, C15)
         from .C15 import rule_reset_complete
         rule_reset_complete(ctx, fx, config, prop="C14")
